@@ -10,6 +10,10 @@ calls, any lengths), exactly what they return when run alone.  The structural pr
 instruction of the package writes package-level state after initialisation — is re-established
 from `/repo`'s working tree on every run (`Generated.globalWrites`, extracted with go/ssa) and is a
 theorem here, so a change that caches into or patches a shared table in place breaks this file.
+What the extraction cannot decide by itself is *pinned*: the list of package-level variables with their
+types, the module-internal imports, the files excluded by build constraints, the places where a reference
+into package-level state is handed to code the extraction does not see into, and the variables whose type
+holds state. Each is a theorem `Generated.<list> = <literal, as reviewed>`; any change of a list breaks it.
 
 What no Lean model can exhibit is a data race as the Go memory model defines it: that part of the
 property is searched dynamically (`conc.batch` under the race detector).
@@ -19,18 +23,188 @@ namespace Astisub
 namespace C20
 open Conc List
 
-/-- **Premise, tied to the code.** No instruction outside package initialisation stores through an
-    address derived from a package-level variable, updates a package-level map, passes such an address
-    to a function that stores through it, or calls a mutating container method on a package-level
-    value; no package-level variable's own type holds a synchronisation primitive, pool or channel
-    (state meant to be mutated by concurrent callers); and the address of no package-level variable
-    is handed to code the extraction does not see into (dynamic call, call into another package,
-    closure, heap store, return value).  (Re-checked against the regenerated list on every run.) -/
+/-- **Premise, tied to the code.** No instruction outside package initialisation writes package-level state:
+    no store through an address derived from a package-level variable — followed through loads, through fields of
+    per-call objects that hold a reference loaded from such a variable, through locals and captured variables,
+    through call results and through any depth of parameter passing —, no update of a package-level map, no
+    `copy`/`append`/`delete`/`clear` into one, no mutating container method on one; no write to a variable captured
+    by a function that outlives package initialisation; no write to another package's variables and no call of a
+    process-wide setter; no package-level variable whose own type holds a synchronisation primitive or a channel;
+    and the bare address of no package-level variable leaves the analysed code.
+    (Re-checked against the list regenerated from the working tree on every run.) -/
 theorem no_global_writes : Generated.globalWrites = [] := rfl
 
-/-- the only injectable package-level state is the documented clock; it is among the package's
-    variables and nothing in the package assigns it -/
-theorem clock_is_a_global : "Now" ∈ Generated.packageGlobals := by decide
+/-- **The package-level variables are exactly these, with exactly these types.** A change that adds a variable
+    (a cache, a pool, a scratch buffer, a memoising function value, a lazily built table …), removes one or changes
+    the type of one changes the regenerated list and breaks this theorem: somebody has to look at the new variable
+    and re-pin the list. -/
+theorem globals_pinned : Generated.packageGlobals =
+  [("BytesBOM", "[]byte"),
+   ("ColorBlack", "*Color"),
+   ("ColorBlue", "*Color"),
+   ("ColorCyan", "*Color"),
+   ("ColorGray", "*Color"),
+   ("ColorGreen", "*Color"),
+   ("ColorLime", "*Color"),
+   ("ColorMagenta", "*Color"),
+   ("ColorMaroon", "*Color"),
+   ("ColorNavy", "*Color"),
+   ("ColorOlive", "*Color"),
+   ("ColorPurple", "*Color"),
+   ("ColorRed", "*Color"),
+   ("ColorSilver", "*Color"),
+   ("ColorTeal", "*Color"),
+   ("ColorWhite", "*Color"),
+   ("ColorYellow", "*Color"),
+   ("ErrInvalidExtension", "error"),
+   ("ErrNoSubtitlesToWrite", "error"),
+   ("ErrNoValidTeletextPID", "error"),
+   ("JustificationCentered", "Justification"),
+   ("JustificationLeft", "Justification"),
+   ("JustificationRight", "Justification"),
+   ("JustificationUnchanged", "Justification"),
+   ("Now", "func() time.Time"),
+   ("bytesLineSeparator", "[]byte"),
+   ("bytesSRTTimeBoundariesSeparator", "[]byte"),
+   ("bytesSpace", "[]byte"),
+   ("bytesWebVTTItalicEndTag", "[]byte"),
+   ("bytesWebVTTItalicStartTag", "[]byte"),
+   ("bytesWebVTTTimeBoundariesSeparator", "[]byte"),
+   ("htmlEscaper", "*strings.Replacer"),
+   ("htmlUnescaper", "*strings.Replacer"),
+   ("ssaRegexpEffect", "*regexp.Regexp"),
+   ("stlCharacterCodeTables", "map[uint16]*github.com/asticode/go-astikit.BiMap"),
+   ("stlFramerateMapping", "*github.com/asticode/go-astikit.BiMap"),
+   ("stlLanguageMapping", "*github.com/asticode/go-astikit.BiMap"),
+   ("stlUnicodeDiacritic", "*github.com/asticode/go-astikit.BiMap"),
+   ("stlUnicodeMapping", "*github.com/asticode/go-astikit.BiMap"),
+   ("teletextCharsetG0Arabic", "*teletextCharset"),
+   ("teletextCharsetG0CyrillicOption1", "*teletextCharset"),
+   ("teletextCharsetG0CyrillicOption2", "*teletextCharset"),
+   ("teletextCharsetG0CyrillicOption3", "*teletextCharset"),
+   ("teletextCharsetG0Greek", "*teletextCharset"),
+   ("teletextCharsetG0Hebrew", "*teletextCharset"),
+   ("teletextCharsetG0Latin", "*teletextCharset"),
+   ("teletextCharsetG2Arabic", "*teletextCharset"),
+   ("teletextCharsetG2Cyrillic", "*teletextCharset"),
+   ("teletextCharsetG2Greek", "*teletextCharset"),
+   ("teletextCharsetG2Latin", "*teletextCharset"),
+   ("teletextCharsets", "map[uint8]map[uint8]struct{g0 *teletextCharset; g2 *teletextCharset; national *teletextNationalSubset}"),
+   ("teletextNationalSubsetCharactersPositionInG0", "[13]uint8"),
+   ("teletextNationalSubsetCzechSlovak", "*teletextNationalSubset"),
+   ("teletextNationalSubsetEnglish", "*teletextNationalSubset"),
+   ("teletextNationalSubsetEstonian", "*teletextNationalSubset"),
+   ("teletextNationalSubsetFrench", "*teletextNationalSubset"),
+   ("teletextNationalSubsetGerman", "*teletextNationalSubset"),
+   ("teletextNationalSubsetItalian", "*teletextNationalSubset"),
+   ("teletextNationalSubsetLettishLithuanian", "*teletextNationalSubset"),
+   ("teletextNationalSubsetPolish", "*teletextNationalSubset"),
+   ("teletextNationalSubsetPortugueseSpanish", "*teletextNationalSubset"),
+   ("teletextNationalSubsetRomanian", "*teletextNationalSubset"),
+   ("teletextNationalSubsetSerbianCroatianSlovenian", "*teletextNationalSubset"),
+   ("teletextNationalSubsetSwedishFinnishHungarian", "*teletextNationalSubset"),
+   ("teletextNationalSubsetTurkish", "*teletextNationalSubset"),
+   ("ttmlLanguageMapping", "*github.com/asticode/go-astikit.BiMap"),
+   ("ttmlRegexpClockTimeFrames", "*regexp.Regexp"),
+   ("ttmlRegexpOffsetTime", "*regexp.Regexp"),
+   ("webVTTRegexpInlineTimestamp", "*regexp.Regexp"),
+   ("webVTTRegexpTag", "*regexp.Regexp")] := rfl
+
+/-- the only injectable package-level state is the documented clock; it is among the package's variables, it is
+    a function value, and (`no_global_writes`) nothing in the package assigns it -/
+theorem clock_is_a_global : ("Now", "func() time.Time") ∈ Generated.packageGlobals := by decide
+
+/-- **The library is one package.** The root package imports no other package of its own module, so there is no
+    package-level state of the library outside the variables listed above (if it ever does, the functions and
+    variables of those packages are analysed as well, and this list must be re-pinned). -/
+theorem internal_imports_pinned : Generated.internalImports =
+  [] := rfl
+
+/-- **The extractor sees every file the harness builds.** It loads the package with `-tags verif`, like the
+    harness; these are the non-test files of the package directory that build constraints still exclude. A new
+    file behind a build tag (`race`, an operating system, `!verif` …) shows up here. -/
+theorem ignored_files_pinned : Generated.ignoredFiles =
+  [] := rfl
+
+/-- **Every place where a reference into package-level state leaves the analysed code, as of today.** These are
+    the calls of functions of other packages on the shared tables (the read-only methods of `regexp.Regexp`,
+    `strings.Replacer`, `astikit.BiMap`), the calls through the injectable clock, the sentinel errors that are
+    returned, and the places where a per-call object keeps a reference to (or a copy of) a shared table. None of
+    them writes. A new entry — `io.ReadFull` into a package-level buffer, `sort.Strings` of a package-level
+    slice, `(*Regexp).Longest`, a method of a package-level `*bytes.Buffer`, a table pointer kept in a decoder
+    instead of a copy of the table … — breaks this theorem and has to be looked at. -/
+theorem handovers_pinned : Generated.sharedHandovers =
+  ["appended teletextCharsetG0Latin as []byte",
+   "appended teletextCharsets as []byte",
+   "dynamic call <- Now",
+   "foreign (*github.com/asticode/go-astikit.BiMap).Get <- stlCharacterCodeTables",
+   "foreign (*github.com/asticode/go-astikit.BiMap).Get <- stlFramerateMapping",
+   "foreign (*github.com/asticode/go-astikit.BiMap).Get <- stlLanguageMapping",
+   "foreign (*github.com/asticode/go-astikit.BiMap).Get <- stlUnicodeDiacritic",
+   "foreign (*github.com/asticode/go-astikit.BiMap).Get <- stlUnicodeMapping",
+   "foreign (*github.com/asticode/go-astikit.BiMap).Get <- ttmlLanguageMapping",
+   "foreign (*github.com/asticode/go-astikit.BiMap).GetInverse <- stlFramerateMapping",
+   "foreign (*github.com/asticode/go-astikit.BiMap).GetInverse <- stlLanguageMapping",
+   "foreign (*github.com/asticode/go-astikit.BiMap).GetInverse <- stlUnicodeDiacritic",
+   "foreign (*github.com/asticode/go-astikit.BiMap).GetInverse <- stlUnicodeMapping",
+   "foreign (*github.com/asticode/go-astikit.BiMap).GetInverse <- ttmlLanguageMapping",
+   "foreign (*regexp.Regexp).FindAllStringIndex <- ssaRegexpEffect",
+   "foreign (*regexp.Regexp).FindAllStringSubmatchIndex <- webVTTRegexpInlineTimestamp",
+   "foreign (*regexp.Regexp).FindStringIndex <- ttmlRegexpClockTimeFrames",
+   "foreign (*regexp.Regexp).FindStringSubmatch <- ttmlRegexpOffsetTime",
+   "foreign (*regexp.Regexp).FindStringSubmatch <- webVTTRegexpTag",
+   "foreign (*strings.Replacer).Replace <- htmlEscaper",
+   "foreign (*strings.Replacer).Replace <- htmlUnescaper",
+   "foreign (time.Time).Format <- Now",
+   "returned (github.com/asticode/go-astisub.Subtitles).Write ErrInvalidExtension",
+   "returned (github.com/asticode/go-astisub.Subtitles).Write ErrNoSubtitlesToWrite",
+   "returned (github.com/asticode/go-astisub.Subtitles).WriteToSRT ErrNoSubtitlesToWrite",
+   "returned (github.com/asticode/go-astisub.Subtitles).WriteToSSA ErrNoSubtitlesToWrite",
+   "returned (github.com/asticode/go-astisub.Subtitles).WriteToSTL ErrNoSubtitlesToWrite",
+   "returned (github.com/asticode/go-astisub.Subtitles).WriteToTTML ErrNoSubtitlesToWrite",
+   "returned (github.com/asticode/go-astisub.Subtitles).WriteToWebVTT ErrNoSubtitlesToWrite",
+   "returned Open ErrInvalidExtension",
+   "returned Open ErrNoValidTeletextPID",
+   "returned OpenFile ErrInvalidExtension",
+   "returned OpenFile ErrNoValidTeletextPID",
+   "returned ReadFromTeletext ErrNoValidTeletextPID",
+   "stored ColorBlack as *Color into StyleAttributes.TeletextColor",
+   "stored ColorBlue as *Color into StyleAttributes.TeletextColor",
+   "stored ColorCyan as *Color into StyleAttributes.TeletextColor",
+   "stored ColorGreen as *Color into StyleAttributes.TeletextColor",
+   "stored ColorMagenta as *Color into StyleAttributes.TeletextColor",
+   "stored ColorRed as *Color into StyleAttributes.TeletextColor",
+   "stored ColorWhite as *Color into StyleAttributes.TeletextColor",
+   "stored ColorYellow as *Color into StyleAttributes.TeletextColor",
+   "stored ErrInvalidExtension as any into element of *[2]any",
+   "stored ErrNoSubtitlesToWrite as any into element of *[2]any",
+   "stored ErrNoValidTeletextPID as any into element of *[1]any",
+   "stored ErrNoValidTeletextPID as any into element of *[2]any",
+   "stored Now as time.Time into gsiBlock.creationDate",
+   "stored Now as time.Time into gsiBlock.revisionDate",
+   "stored stlCharacterCodeTables as *github.com/asticode/go-astikit.BiMap into stlCharacterHandler.m",
+   "stored teletextCharsetG0Latin as []byte into element of *[1][]byte",
+   "stored teletextCharsetG0Latin as teletextCharset into teletextCharacterDecoder.c",
+   "stored teletextCharsets as []byte into element of *[1][]byte",
+   "stored teletextCharsets as []byte into element of teletextCharacterDecoder.c",
+   "stored teletextCharsets as teletextCharset into teletextCharacterDecoder.c"] := rfl
+
+/-- **Package-level variables whose type holds state of some kind, looked into across packages, as of today**:
+    the sentinel errors (interface values), the clock (a function value), the replacers (`sync.Once` inside
+    `strings.Replacer`, documented safe for concurrent use) and the lock-protected `astikit.BiMap`s. -/
+theorem stateful_pinned : Generated.statefulForeign =
+  ["ErrInvalidExtension: interface",
+   "ErrNoSubtitlesToWrite: interface",
+   "ErrNoValidTeletextPID: interface",
+   "Now: func",
+   "htmlEscaper: sync.Once in strings.Replacer",
+   "htmlUnescaper: sync.Once in strings.Replacer",
+   "stlCharacterCodeTables: interface in github.com/asticode/go-astikit.BiMap",
+   "stlFramerateMapping: interface in github.com/asticode/go-astikit.BiMap",
+   "stlLanguageMapping: interface in github.com/asticode/go-astikit.BiMap",
+   "stlUnicodeDiacritic: interface in github.com/asticode/go-astikit.BiMap",
+   "stlUnicodeMapping: interface in github.com/asticode/go-astikit.BiMap",
+   "ttmlLanguageMapping: interface in github.com/asticode/go-astikit.BiMap"] := rfl
 
 theorem tick_length {S L : Type} (s : S) (ps : List (Proc S L)) (i : Nat) : (tick s ps i).length = ps.length := by
   induction ps generalizing i with
